@@ -118,17 +118,6 @@ def work_minimize(item):
 # -------------------------------------------------------------------------------------------
 
 
-def _nested_classes(case):
-    """Classes met at each nested-model position of the (minimal) witness, in operand order."""
-    out = []
-    fields = sorted({f for s in case["specs"] for f, v in s.items() if isinstance(v, dict) and "M" in v})
-    for f in fields:
-        cs = [s[f]["M"] if isinstance(s.get(f), dict) and "M" in s[f] else "-" for s in case["specs"]]
-        if sum(c != "-" for c in cs) >= 2:
-            out.append(f + ":" + "|".join(cs))
-    return ",".join(out)
-
-
 def _violation(case, finding, info):
     sig = {
         "law": finding["law"],
@@ -138,7 +127,7 @@ def _violation(case, finding, info):
         "modes": info["modes"],
         "factory": info["factory"],
     }
-    nc = _nested_classes(case)
+    nc = C.nested_classes(case["specs"])
     if nc:
         sig["nested"] = nc
     return {"sig": sig, "input": case, "what": finding["what"], "config": {"driver": "c14"}}
@@ -203,9 +192,10 @@ def run(tier, seed):
                 if r == parallel.HANG:
                     hangs.append((fname, it))
                     continue
-                c = counters.setdefault(tag, {"cases": 0, "merges": 0})
+                c = counters.setdefault(tag, {"cases": 0, "merges": 0, "cpu_s": 0.0})
                 c["cases"] += r["cases"]
                 c["merges"] += r["merges"]
+                c["cpu_s"] = round(c["cpu_s"] + r["cpu_s"], 2)
                 for k in tot:
                     tot[k] += r[k]
                 if "bitmap" in r:
